@@ -22,6 +22,7 @@ const (
 	VerifPubSubPongPhase      = verifPubSubPongPhase
 	VerifAttemptAfterTick     = verifAttemptAfterTick
 	VerifChainPrimaryFired    = verifChainPrimaryFired
+	VerifChannelGetLocked     = verifChannelGetLocked
 )
 
 var verifHook atomic.Pointer[func(point int)]
